@@ -285,6 +285,8 @@ def ob_name_table(ctx, res):
             return recv
         if isinstance(recv, str) and m in ("split", "splitn") and args:
             return recv.split(args[-1])
+        if isinstance(recv, str) and m in ("split_whitespace", "split_ascii_whitespace") and not args:
+            return recv.split()
         if isinstance(recv, str) and m == "parse" and not args:
             return ("some", int(recv)) if recv.isdigit() else ("err", "ParseIntError")
         if isinstance(recv, list):
@@ -318,10 +320,12 @@ def ob_name_table(ctx, res):
             return ("ERRVAL",) + tuple(str(a_)[:20] for a_ in args[:1])
         return NotImplemented
     ext = {"None": None, "method": method, "binop": binop, "macro": macro, "call": call}
-    entry = {"__ref": True, "start": 7, "end": 9, "rest": "r0\tr1"}
-    cases = [(("variant", "Interval", []), ("some", "chrX:7-9")), (("variant", "None", []), ("some", "chrX\t7\t9\tr0\tr1")),
+    # the rest holds a field with a space and an empty field: columns are TAB separated, nothing else
+    entry = {"__ref": True, "start": 7, "end": 9, "rest": "r 0\t\tr2"}
+    cases = [(("variant", "Interval", []), ("some", "chrX:7-9")), (("variant", "None", []), ("some", "chrX\t7\t9\tr 0\t\tr2")),
              (("variant", "Column", [0]), ("some", "chrX")), (("variant", "Column", [1]), ("some", "7")), (("variant", "Column", [2]), ("some", "9")),
-             (("variant", "Column", [3]), ("some", "r0")), (("variant", "Column", [4]), ("some", "r1")), (("variant", "Column", [5]), "ERR")]
+             (("variant", "Column", [3]), ("some", "r 0")), (("variant", "Column", [4]), ("some", "")), (("variant", "Column", [5]), ("some", "r2")),
+             (("variant", "Column", [6]), "ERR")]
     for nm_, want in cases:
         it = Interp(ctx.ast, MISC, extern=ext)
         holder[0] = it
@@ -336,7 +340,7 @@ def ob_name_table(ctx, res):
                                             "a missing column is an error; interval -> chrom:start-end; none -> the input columns)" % (nm_[1], nm_[2] or "", want, got))
             return
     else:
-        res.ok(fn, "name column k: 0/1/2 -> chrom/start/end, k>=3 -> field k-3 of the rest (missing -> Err); interval -> chrom:start-end; none -> input line (8 cases evaluated)")
+        res.ok(fn, "name column k: 0/1/2 -> chrom/start/end, k>=3 -> field k-3 of the rest (missing -> Err; fields are TAB separated: a space or an empty field is part of / a field); interval -> chrom:start-end; none -> input line (9 cases evaluated)")
     # --namecol
     f2 = ctx.ast.fn(AV, "bigwigaverageoverbed", inline=True, keep=("process_chunk",))
     lets = [n for n in walk_no_nested_fn(f2.body) if n.k == "let" and n.get("init") is not None and "namecol" in up(n["init"]) and
